@@ -32,7 +32,16 @@ def build():
     for o in b.outputs:
         o.type = ir.TensorType(ir.DataType.FLOAT)
         o.shape = ir.Shape(["N", 4])
-    g = ir.Graph([x, u], [b.outputs[0]], nodes=[a, b], name="main", opset_imports={"": 18})
+    # an If body whose node consumes values captured from the enclosing graph (annotations may target them)
+    inner = ir.Node("", "Sub", [a.outputs[0], x], name="inner")
+    inner.outputs[0].name = "iv"
+    inner.outputs[0].type = ir.TensorType(ir.DataType.FLOAT)
+    inner.outputs[0].shape = ir.Shape(["N", 4])
+    body = ir.Graph([], [inner.outputs[0]], nodes=[inner], name="body")
+    cond = ir.Value(name="cond", type=ir.TensorType(ir.DataType.BOOL), shape=ir.Shape([]))
+    iff = ir.Node("", "If", [cond], attributes=[ir.AttrGraph("then_branch", body), ir.AttrGraph("else_branch", ir.Graph([], [], nodes=[], name="empty"))], name="iff")
+    iff.outputs[0].name = "ifo"
+    g = ir.Graph([x, u, cond], [b.outputs[0], iff.outputs[0]], nodes=[a, b, iff], name="main", opset_imports={"": 18})
     m = ir.Model(g, ir_version=11)
     m.add_device_configuration("cfg0", num_devices=2)
     m.add_device_configuration("cfg1", num_devices=3, device_names=("d0", "d1", "d2"))
@@ -94,6 +103,29 @@ def oracle(m, problems, where):
             problems.append(f"{where}: node {n.name} serializes device references {got}, current names are {want}")
 
 
+def _device_fields(p):
+    out = []
+    if len(getattr(p, "configuration", [])):
+        out.append("model.configuration")
+
+    def graph(g, where):
+        for n in g.node:
+            if len(n.device_configurations):
+                out.append(f"{where}node {n.name}.device_configurations")
+            for a in n.attribute:
+                if a.HasField("g"):
+                    graph(a.g, f"{where}{n.name}/")
+                for sg in a.graphs:
+                    graph(sg, f"{where}{n.name}/")
+
+    graph(p.graph, "")
+    for f in p.functions:
+        for n in f.node:
+            if len(n.device_configurations):
+                out.append(f"function {f.name} node {n.name}.device_configurations")
+    return out
+
+
 OPS = ["shard", "set_pipeline_stage", "add_configuration", "remove_configuration(cascade)", "rename_value", "replace_input_with", "resize_outputs", "resize_inputs",
        "clone", "round_trip"]
 NAMES = ["t", "x", "renamed", "cfg0"]
@@ -107,7 +139,7 @@ def body_for(k, first_op, second_op=None):
         for i in range(k):
             fixed = first_op if i == 0 else second_op if i == 1 else None
             op = OPS[fixed if fixed is not None else operator.index(P[f"o{i}"])]
-            nodes = list(m.graph)
+            nodes = [n_ for n_ in m.graph.all_nodes() if n_.op_type != "If"]    # main-graph nodes and the node inside the If body
             node = nodes[operator.index(P[f"n{i}"]) % len(nodes)]
             io = [v for v in list(node.inputs) + list(node.outputs) if v is not None]
             all_vals = list(m.graph.inputs) + [o for n_ in nodes for o in n_.outputs]
@@ -133,7 +165,13 @@ def body_for(k, first_op, second_op=None):
                 elif op == "remove_configuration(cascade)":
                     if cfgs:
                         cfg = cfgs[operator.index(c) % len(cfgs)]
-                        m.remove_device_configuration(cfg if operator.index(a) % 2 else cfg.name, cascade=True)
+                        how = operator.index(a) % 3
+                        if how == 2:
+                            # an equal-looking object that is NOT the registered one (e.g. the configuration of another copy of the model)
+                            twin = _multi_device.ModelConfiguration(cfg.name, cfg.num_devices, tuple(cfg.device_names))
+                            m.remove_device_configuration(twin, cascade=True)
+                        else:
+                            m.remove_device_configuration(cfg if how == 1 else cfg.name, cascade=True)
                 elif op == "rename_value":
                     all_vals[operator.index(P[f"v{i}"]) % len(all_vals)].name = NAMES[operator.index(c) % len(NAMES)] + "_r"
                 elif op == "replace_input_with":
@@ -146,8 +184,20 @@ def body_for(k, first_op, second_op=None):
                     m = m.clone()
                 elif op == "round_trip":
                     before_sum = summary(m)
-                    version = (11, 13)[operator.index(c) % 2]
+                    version = (11, 13, 10)[operator.index(c) % 3]
                     m.ir_version = version
+                    if version < 11:
+                        # below IR version 11 nothing of the annotations may be emitted, in any scope
+                        p10 = serde.serialize_model(m)
+                        leaked = _device_fields(p10)
+                        if leaked:
+                            problems.append(f"step {i}: multi-device fields emitted at IR version {version}: {leaked[:3]}")
+                        m.ir_version = 11
+                        log.append("round_trip@10")
+                        oracle(m, problems, f"after step {i} ({op})")
+                        if problems:
+                            break
+                        continue
                     m2 = serde.deserialize_model(serde.serialize_model(m))
                     if summary(m2) != before_sum:
                         problems.append(f"step {i}: annotations changed across a proto round trip at IR version {version}: {before_sum} -> {summary(m2)}")
@@ -175,11 +225,11 @@ def make_case(tier, key):
             ranges[f"o{i}"] = (0, len(OPS) - 1)
         if k > 1 and i == 0:
             # the first of two steps is a valid request with few degrees of freedom; the second is explored widely
-            ranges.update({f"n{i}": (0, 1), f"v{i}": (0, 2), f"a{i}": (-1, 1), f"b{i}": (2, 2), f"c{i}": (0, 1), f"d{i}": (1, 1), f"s{i}": (3, 3)})
+            ranges.update({f"n{i}": (0, 2), f"v{i}": (0, 3), f"a{i}": (-1, 1), f"b{i}": (2, 2), f"c{i}": (0, 1), f"d{i}": (1, 1), f"s{i}": (3, 3)})
         elif k > 1:
-            ranges.update({f"n{i}": (0, 1), f"v{i}": (0, 3), f"a{i}": (-2, 2), f"b{i}": (0, 2), f"c{i}": (0, 1), f"d{i}": (0, 1), f"s{i}": (1, 3)})
+            ranges.update({f"n{i}": (0, 2), f"v{i}": (0, 3), f"a{i}": (-2, 2), f"b{i}": (0, 2), f"c{i}": (0, 2), f"d{i}": (0, 1), f"s{i}": (1, 3)})
         else:
-            ranges.update({f"n{i}": (0, 1), f"v{i}": (0, 4), f"a{i}": (-3, 2), f"b{i}": (-1, 2), f"c{i}": (0, 2), f"d{i}": (0, 3), f"s{i}": (-1, 3)})
+            ranges.update({f"n{i}": (0, 2), f"v{i}": (0, 6), f"a{i}": (-3, 2), f"b{i}": (-1, 2), f"c{i}": (0, 2), f"d{i}": (0, 3), f"s{i}": (-1, 3)})
 
     def sig(args, obs):
         first = obs["problems"][0]
